@@ -33,6 +33,16 @@ impl Clone for Location {
 }
 impl Copy for Location {}
 
+// spec functions about message texts live in a submodule (the broadcast lemmas of spec_failed.rs depend on them)
+pub mod msg_model {
+use vstd::prelude::*;
+pub open spec fn msg_or_empty(o: Option<String>) -> Seq<char> {
+    match o { Some(s) => s@, None => Seq::<char>::empty() }
+}
+pub uninterp spec fn one_line(o: Option<String>) -> Seq<char>;
+} // mod msg_model
+pub use msg_model::*;
+
 // stands for `Vec::extend(Vec)`
 #[verifier::external_body]
 pub fn verif_vec_extend<T>(v: &mut Vec<T>, o: Vec<T>)
@@ -41,16 +51,12 @@ pub fn verif_vec_extend<T>(v: &mut Vec<T>, o: Vec<T>)
 
 // stands for `opt.as_ref().map_or(String::default(), |s| s.to_string())` and `opt.as_ref().map_or("", String::as_str).to_string()`:
 // the custom message if there is one, the empty string otherwise
-pub open spec fn msg_or_empty(o: Option<String>) -> Seq<char> {
-    match o { Some(s) => s@, None => Seq::<char>::empty() }
-}
 #[verifier::external_body]
 pub fn verif_msg_or_empty(o: &Option<String>) -> (r: String)
     ensures r@ == msg_or_empty(*o),
 { unimplemented!() }
 
 // stands for `msg.as_ref().map_or("".to_string(), |s| s.replace('\n', ";"))` (text normalised: opaque, R1)
-pub uninterp spec fn one_line(o: Option<String>) -> Seq<char>;
 #[verifier::external_body]
 pub fn verif_msg_one_line(o: &Option<String>) -> (r: String)
     ensures r@ == one_line(*o),
